@@ -110,6 +110,18 @@ func registerHost(in *Interp) {
 	H["log.Printf"] = nop
 	H["log.Print"] = nop
 	H["strings.ToLower"] = func(in *Interp, a []Value, _ ssa.CallInstruction) Value { return in.lowerOf(a[0]) }
+	H["strings.ToUpper"] = func(in *Interp, a []Value, _ ssa.CallInstruction) Value {
+		switch x := a[0].(type) {
+		case string:
+			return strings.ToUpper(x)
+		case *SymStr:
+			if x.Bytes != nil {
+				return in.asciiCase(x, false)
+			}
+		}
+		in.unmodelled("strings.ToUpper on a symbolic string")
+		return nil
+	}
 	H["strings.Join"] = func(in *Interp, a []Value, _ ssa.CallInstruction) Value {
 		elems, _ := in.stringSlice(a[0])
 		sep := str(a[1])
@@ -146,6 +158,35 @@ func registerHost(in *Interp) {
 			x, ok1 := a[0].(string)
 			y, ok2 := a[1].(string)
 			if !ok1 || !ok2 {
+				if isByteStr(a[0]) || isByteStr(a[1]) {
+					xs, okx := in.byteTerms(a[0])
+					ys, oky := in.byteTerms(a[1])
+					if okx && oky {
+						switch kind {
+						case "prefix":
+							if len(ys) > len(xs) {
+								return in.B.False()
+							}
+							return in.byteStrEq(in.mkByteStr(xs[:len(ys)]), in.mkByteStr(ys))
+						case "suffix":
+							if len(ys) > len(xs) {
+								return in.B.False()
+							}
+							return in.byteStrEq(in.mkByteStr(xs[len(xs)-len(ys):]), in.mkByteStr(ys))
+						case "fold":
+							return in.byteStrEq(in.asciiCase(in.mkByteStr(xs), true), in.asciiCase(in.mkByteStr(ys), true))
+						case "contains":
+							if len(ys) > len(xs) {
+								return in.B.False()
+							}
+							var alts []*sym.Term
+							for i := 0; i+len(ys) <= len(xs); i++ {
+								alts = append(alts, in.byteStrEq(in.mkByteStr(xs[i:i+len(ys)]), in.mkByteStr(ys)))
+							}
+							return in.B.Or(alts...)
+						}
+					}
+				}
 				if l, isLine := a[0].(*SymStr); isLine && l.Line && ok2 {
 					switch kind {
 					case "contains":
@@ -235,6 +276,84 @@ func registerHost(in *Interp) {
 		}
 		return nil
 	}
+	// sort.Slice / SliceStable / Sort / Stable / Ints: insertion sort over the real
+	// less (and Swap) functions - exactly what package sort runs for up to 12
+	// elements; longer inputs get the same stable order (ties of an unstable
+	// sort may then replay differently, which ends as a mismatch, not a verdict).
+	// A symbolic comparison forks the path.
+	insertion := func(in *Interp, n int, less func(i, j int) bool, swap func(i, j int)) {
+		if n > 64 {
+			in.unmodelled("sort of more than 64 elements")
+		}
+		for i := 1; i < n; i++ {
+			for j := i; j > 0 && less(j, j-1); j-- {
+				swap(j, j-1)
+			}
+		}
+	}
+	idx := func(in *Interp, i int) Value { return in.B.Const(in.WordBits, uint64(i)) }
+	sortSlice := func(in *Interp, a []Value, site ssa.CallInstruction) Value {
+		ifc, ok := a[0].(Iface)
+		if !ok || ifc.T == nil {
+			in.goPanic("sort.Slice of nil")
+		}
+		s, ok := ifc.V.(Slice)
+		if !ok {
+			in.unmodelled("sort.Slice of a non-slice")
+		}
+		if s.Len < 0 || s.Arr == nil && s.Len > 0 {
+			in.unmodelled("sort.Slice of an opaque slice")
+		}
+		insertion(in, s.Len, func(i, j int) bool {
+			r := in.doCall(a[1], []Value{idx(in, i), idx(in, j)}, site)
+			return in.branch(r.(*sym.Term))
+		}, func(i, j int) {
+			x, y := in.load(s.Arr.Kids[s.Off+i]), in.load(s.Arr.Kids[s.Off+j])
+			in.store(s.Arr.Kids[s.Off+i], y)
+			in.store(s.Arr.Kids[s.Off+j], x)
+		})
+		return nil
+	}
+	H["sort.Slice"] = sortSlice
+	H["sort.SliceStable"] = sortSlice
+	sortIface := func(in *Interp, a []Value, site ssa.CallInstruction) Value {
+		recv, ok := a[0].(Iface)
+		if !ok || recv.T == nil {
+			in.goPanic("sort.Sort of nil")
+		}
+		method := func(name string, args ...Value) Value {
+			ms := in.Prog.MethodSets.MethodSet(recv.T)
+			for i := 0; i < ms.Len(); i++ {
+				if sel := ms.At(i); sel.Obj().Name() == name {
+					return in.doCall(&Func{Fn: in.Prog.MethodValue(sel)}, append([]Value{recv.V}, args...), site)
+				}
+			}
+			in.unmodelled("sort.Interface without " + name)
+			return nil
+		}
+		n := in.cint(method("Len"), "sort.Interface.Len")
+		insertion(in, n, func(i, j int) bool {
+			return in.branch(method("Less", idx(in, i), idx(in, j)).(*sym.Term))
+		}, func(i, j int) { method("Swap", idx(in, i), idx(in, j)) })
+		return nil
+	}
+	H["sort.Sort"] = sortIface
+	H["sort.Stable"] = sortIface
+	H["sort.Ints"] = func(in *Interp, a []Value, site ssa.CallInstruction) Value {
+		s := a[0].(Slice)
+		if s.Len < 0 {
+			in.unmodelled("sort.Ints of an opaque slice")
+		}
+		insertion(in, s.Len, func(i, j int) bool {
+			x, y := in.load(s.Arr.Kids[s.Off+i]).(*sym.Term), in.load(s.Arr.Kids[s.Off+j]).(*sym.Term)
+			return in.branch(in.B.SLt(x, y))
+		}, func(i, j int) {
+			x, y := in.load(s.Arr.Kids[s.Off+i]), in.load(s.Arr.Kids[s.Off+j])
+			in.store(s.Arr.Kids[s.Off+i], y)
+			in.store(s.Arr.Kids[s.Off+j], x)
+		})
+		return nil
+	}
 	H["text/template.New"] = func(in *Interp, a []Value, site ssa.CallInstruction) Value {
 		pt := site.Value().Type().(*types.Pointer)
 		return Ptr{in.newCell(pt.Elem())}
@@ -254,6 +373,132 @@ func registerHost(in *Interp) {
 		return nil
 	}
 	H["runtime.KeepAlive"] = nop
+	// typed atomics (atomic.Uint32, atomic.Bool, ...): the field named v of the receiver
+	vfield := func(in *Interp, recv Value) *Cell {
+		p, ok := recv.(Ptr)
+		if !ok || p.C == nil {
+			in.goPanic("nil pointer dereference")
+		}
+		st, ok := under(p.C.T).(*types.Struct)
+		if !ok || p.C.Kids == nil {
+			in.unmodelled("typed atomic of an unexpected layout")
+		}
+		for i := 0; i < st.NumFields(); i++ {
+			if st.Field(i).Name() == "v" {
+				return p.C.Kids[i]
+			}
+		}
+		in.unmodelled("typed atomic without field v")
+		return nil
+	}
+	for _, ty := range []string{"Int32", "Uint32", "Int64", "Uint64", "Uintptr"} {
+		pre := "(*sync/atomic." + ty + ")."
+		H[pre+"Load"] = func(in *Interp, a []Value, _ ssa.CallInstruction) Value { return in.load(vfield(in, a[0])) }
+		H[pre+"Store"] = func(in *Interp, a []Value, _ ssa.CallInstruction) Value { in.store(vfield(in, a[0]), a[1]); return nil }
+		H[pre+"Swap"] = func(in *Interp, a []Value, _ ssa.CallInstruction) Value {
+			c := vfield(in, a[0])
+			old := in.load(c)
+			in.store(c, a[1])
+			return old
+		}
+		H[pre+"Add"] = func(in *Interp, a []Value, _ ssa.CallInstruction) Value {
+			c := vfield(in, a[0])
+			n := in.B.Add(in.load(c).(*sym.Term), a[1].(*sym.Term))
+			in.store(c, n)
+			return n
+		}
+		H[pre+"CompareAndSwap"] = func(in *Interp, a []Value, _ ssa.CallInstruction) Value {
+			c := vfield(in, a[0])
+			if in.branch(in.B.Eq(in.load(c).(*sym.Term), a[1].(*sym.Term))) {
+				in.store(c, a[2])
+				return in.B.True()
+			}
+			return in.B.False()
+		}
+	}
+	// atomic.Bool keeps a uint32
+	b32 := func(in *Interp, b Value) *sym.Term {
+		return in.B.Ite(b.(*sym.Term), in.B.Const(32, 1), in.B.Const(32, 0))
+	}
+	isSet := func(in *Interp, v Value) *sym.Term { return in.B.Not(in.B.Eq(v.(*sym.Term), in.B.Const(32, 0))) }
+	H["(*sync/atomic.Bool).Load"] = func(in *Interp, a []Value, _ ssa.CallInstruction) Value { return isSet(in, in.load(vfield(in, a[0]))) }
+	H["(*sync/atomic.Bool).Store"] = func(in *Interp, a []Value, _ ssa.CallInstruction) Value {
+		in.store(vfield(in, a[0]), b32(in, a[1]))
+		return nil
+	}
+	H["(*sync/atomic.Bool).Swap"] = func(in *Interp, a []Value, _ ssa.CallInstruction) Value {
+		c := vfield(in, a[0])
+		old := isSet(in, in.load(c))
+		in.store(c, b32(in, a[1]))
+		return old
+	}
+	H["(*sync/atomic.Bool).CompareAndSwap"] = func(in *Interp, a []Value, _ ssa.CallInstruction) Value {
+		c := vfield(in, a[0])
+		if in.branch(in.B.Eq(isSet(in, in.load(c)), a[1].(*sym.Term))) {
+			in.store(c, b32(in, a[2]))
+			return in.B.True()
+		}
+		return in.B.False()
+	}
+	// sync/atomic: the engine runs one goroutine at a time, so an atomic access is the plain access
+	// (interleavings of other goroutines are outside every claim that reaches these)
+	for _, ty := range []string{"Int32", "Uint32", "Int64", "Uint64", "Uintptr", "Pointer"} {
+		H["sync/atomic.Load"+ty] = func(in *Interp, a []Value, _ ssa.CallInstruction) Value { return in.load(a[0].(Ptr).C) }
+		H["sync/atomic.Store"+ty] = func(in *Interp, a []Value, _ ssa.CallInstruction) Value {
+			in.store(a[0].(Ptr).C, a[1])
+			return nil
+		}
+		H["sync/atomic.Swap"+ty] = func(in *Interp, a []Value, _ ssa.CallInstruction) Value {
+			old := in.load(a[0].(Ptr).C)
+			in.store(a[0].(Ptr).C, a[1])
+			return old
+		}
+		if ty != "Pointer" {
+			H["sync/atomic.Add"+ty] = func(in *Interp, a []Value, _ ssa.CallInstruction) Value {
+				n := in.B.Add(in.load(a[0].(Ptr).C).(*sym.Term), a[1].(*sym.Term))
+				in.store(a[0].(Ptr).C, n)
+				return n
+			}
+			H["sync/atomic.CompareAndSwap"+ty] = func(in *Interp, a []Value, _ ssa.CallInstruction) Value {
+				c := a[0].(Ptr).C
+				if in.branch(in.B.Eq(in.load(c).(*sym.Term), a[1].(*sym.Term))) {
+					in.store(c, a[2])
+					return in.B.True()
+				}
+				return in.B.False()
+			}
+		}
+	}
+	// how a child process ended: the exit code stored by vProcState (nil state: -1, as in package os)
+	procCode := func(in *Interp, v Value) *sym.Term {
+		p, ok := v.(Ptr)
+		if !ok {
+			in.unmodelled("ProcessState receiver")
+		}
+		if p.C == nil {
+			return in.B.Const(in.WordBits, ^uint64(0))
+		}
+		cv, ok := in.procCodes[p.C]
+		if !ok {
+			in.unmodelled("os.ProcessState not produced by vProcState")
+		}
+		return cv.(*sym.Term)
+	}
+	H["(*os.ProcessState).ExitCode"] = func(in *Interp, a []Value, _ ssa.CallInstruction) Value { return procCode(in, a[0]) }
+	H["(*os.ProcessState).Success"] = func(in *Interp, a []Value, _ ssa.CallInstruction) Value {
+		return in.B.Eq(procCode(in, a[0]), in.B.Const(in.WordBits, 0))
+	}
+	H["(*os.ProcessState).Exited"] = func(in *Interp, a []Value, _ ssa.CallInstruction) Value {
+		return in.B.SLe(in.B.Const(in.WordBits, 0), procCode(in, a[0]))
+	}
+	H["(*os.ProcessState).String"] = opaqueStr("process state")
+	// captured output that is only ever formatted into messages
+	H["(*bytes.Buffer).String"] = opaqueStr("buffer")
+	H["(*bytes.Buffer).Bytes"] = func(in *Interp, a []Value, _ ssa.CallInstruction) Value {
+		return in.bytesOf("<buffer@" + in.where() + ">")
+	}
+	H["bytes.TrimSpace"] = func(in *Interp, a []Value, _ ssa.CallInstruction) Value { return a[0] }
+	H["(*os/exec.ExitError).Error"] = opaqueStr("exit error")
 	H["regexp.MustCompile"] = func(in *Interp, a []Value, site ssa.CallInstruction) Value {
 		pt := site.Value().Type().(*types.Pointer)
 		return Ptr{in.newCell(pt.Elem())}
